@@ -10,6 +10,7 @@ from __future__ import annotations
 
 import itertools
 import math
+from datetime import timedelta
 
 from frequenz.client.microgrid import ComponentMetricId as M
 
@@ -256,6 +257,130 @@ def fetcher_shard(_):
     return acc
 
 
+# -- E1: the streaming path (SendOnUpdate) --------------------------------------------
+
+POOL_BATS = [9, 19, 29]
+STEP = 0.6  # seconds of virtual time after every event (message age 0.6 / 1.2 / 1.8 s stays below the 2 s limit)
+MSG_VARIANTS = {"lo": dict(soc=30.0, cap=1000.0, sl=20.0, su=80.0), "hi": dict(soc=90.0, cap=3000.0, sl=10.0, su=90.0),
+                "nosoc": dict(soc=math.nan, cap=2000.0, sl=20.0, su=80.0)}
+
+
+def pool_events(tier):
+    ev = [("msg", b, v) for b in POOL_BATS[: 2 if tier == "quick" else 3] for v in ("lo", "hi")] + [("msg", 9, "nosoc")]
+    ids = POOL_BATS[: 2 if tier == "quick" else 3]
+    subsets = [s for r in range(len(ids) + 1) for s in itertools.combinations(ids, r)]
+    ev += [("working", s) for s in subsets]
+    ev += [("wait", 3.0)]
+    return ev
+
+
+def run_pool_history(hist, tier):
+    from frequenz.client.microgrid import Component, ComponentCategory, Connection, InverterType
+
+    from frequenz.sdk.timeseries.battery_pool._methods import SendOnUpdate
+
+    from ..vloop import virtual_loop
+
+    ids = POOL_BATS[: 2 if tier == "quick" else 3]
+    comps = {Component(1, ComponentCategory.GRID), Component(2, ComponentCategory.METER)}
+    conns = {Connection(1, 2)}
+    for b in ids:
+        comps |= {Component(b - 1, ComponentCategory.INVERTER, InverterType.BATTERY), Component(b, ComponentCategory.BATTERY)}
+        conns |= {Connection(2, b - 1), Connection(b - 1, b)}
+    v = []
+    with virtual_loop(wall=True) as loop, fakes.fake_microgrid(comps, conns) as cm:
+        api = cm.api_client
+        working = set(ids)
+        sou = {"soc": SendOnUpdate(set(working), SoCCalculator(set(ids)), timedelta(seconds=0.2)),
+               "cap": SendOnUpdate(set(working), CapacityCalculator(set(ids)), timedelta(seconds=0.2))}
+        rx = {k: s.new_receiver() for k, s in sou.items()}
+        loop.settle()
+        latest = {"soc": "nothing-yet", "cap": "nothing-yet"}
+        data = {b: None for b in ids}
+        last_rx = {b: None for b in ids}
+
+        def observe(after):
+            for k, r in rx.items():
+                while len(r):
+                    x = r.consume().value
+                    latest[k] = None if x is None else (x.as_percent() if k == "soc" else x.as_watt_hours())
+            now = loop.time()
+            states = []
+            for b in ids:
+                d = data[b]
+                if d is None or last_rx[b] is None or now - last_rx[b] >= 2.0 - 1e-9:
+                    states.append(None)
+                else:
+                    states.append({"cap": d["cap"], "soc": None if math.isnan(d["soc"]) else d["soc"], "lo": d["sl"], "hi": d["su"]})
+            rcap, rsoc = reference(states, {10 + i for i, b in enumerate(ids) if b in working})
+            for k, exp in (("cap", rcap), ("soc", rsoc)):
+                got = latest[k]
+                if got == "nothing-yet":
+                    if exp is not None:
+                        v.append(("pool_stream_reflects_current_working_set_and_data", {"metric": k, "after": list(map(str, after)), "got": "nothing emitted", "expected": exp}))
+                    continue
+                if exp == "any":
+                    continue
+                ok = (got is None and exp is None) or (got is not None and exp is not None and math.isclose(got, exp, rel_tol=1e-9, abs_tol=1e-9))
+                if not ok:
+                    v.append(("pool_stream_reflects_current_working_set_and_data",
+                              {"metric": k, "after": list(map(str, after)), "got": got, "expected": exp, "working": sorted(working)}))
+
+        loop.advance(2.0 + STEP)  # WAIT_FOR_COMPONENT_DATA_SEC
+        for e in hist:
+            if e[0] == "msg":
+                _, b, var = e
+                kw = MSG_VARIANTS[var]
+                api.push(fakes.bat(b, ts=loop.wall_now(), **kw))
+                data[b] = kw
+                last_rx[b] = loop.time()
+            elif e[0] == "working":
+                new = set(e[1])
+                for b in working - new:
+                    data[b] = None  # cached metrics of a battery that stops working are discarded
+                working = new
+                for s_ in sou.values():
+                    s_.update_working_batteries(set(new))
+            else:
+                loop.advance(e[1])
+            loop.advance(STEP)
+            observe(e)
+            if v:
+                break
+        for s_ in sou.values():
+            loop.create_task(s_.stop())
+        loop.settle()
+    return v
+
+
+def pool_shard(args) -> Acc:
+    tier, first, depth = args
+    acc = Acc()
+    ev = pool_events(tier)
+    for tail in itertools.product(ev, repeat=depth - 1):
+        hist = [first, *tail]
+        viol = run_pool_history(hist, tier)
+        acc.evaluations += 1
+        acc.traces += 1
+        acc.transitions += len(hist)
+        acc.clauses["pool_stream_reflects_current_working_set_and_data"] += 2 * len(hist)
+        if any(e[0] == "working" for e in hist) and any(e[0] == "msg" for e in hist):
+            acc.nontrivial += 1
+        acc.state(repr(hist))
+        if acc.evaluations % 2000 == 1:
+            acc.sample({"driver": "pool-stream", "history": [list(map(str, e)) for e in hist]})
+        for clause, detail in viol:
+            acc.violation(Violation(clause, {"driver": "pool", "tier": tier, "history": [[e[0], list(e[1]) if isinstance(e[1], tuple) else e[1], *e[2:]] for e in hist]}, detail))
+    acc.outcome("pool-stream")
+    return acc
+
+
+def _dispatch(args):
+    if args[0] == "pool":
+        return pool_shard(args[1:])
+    return shard(args)
+
+
 def run(tier: str, seed: int, workers: int):
     pats = PATTERNS_Q if tier == "quick" else PATTERNS_T
     nb = len(battery_states(pats))
@@ -269,13 +394,18 @@ def run(tier: str, seed: int, workers: int):
         import random
 
         random.Random(seed).shuffle(shards)
-    acc = pmap_acc(shard, shards, workers)
+    pool_depth = 4 if tier == "quick" else 4
+    for e in pool_events(tier):
+        shards.append(("pool", tier, e, pool_depth))
+    acc = pmap_acc(_dispatch, shards, workers)
     acc.merge(fetcher_shard(None))
     meta = {
         "rule": "n batteries (quick 1-2, thorough 1-3), each from capacity {0,1000,3000} x SoC {5,20,50,80,95} x limits "
         "{(20,80),(10,90),(50,50)} x a missing-metric pattern (or absent from the data), every working subset; each case "
         "generated once; non-trivial = >= 2 working batteries with at least one missing metric somewhere; plus 16 NaN "
-        "patterns through the real LatestBatteryMetricsFetcher on the virtual loop",
+        "patterns through the real LatestBatteryMetricsFetcher on the virtual loop; plus the streaming path: two real SendOnUpdate "
+        "instances (SoC, capacity) over the fake API, every history of depth 4 over {battery message (2-3 batteries x 2-3 data variants), "
+        "working-set update to every subset, 3 s silence}, the latest streamed value compared with the reference after every event",
         "assumptions": [
             "decided on the stated grid",
             "'lacks a required metric' is read per aggregate: capacity needs capacity and both SoC limits, SoC additionally the SoC",
@@ -290,6 +420,9 @@ def run(tier: str, seed: int, workers: int):
 def replay(case: dict):
     if case.get("driver") == "fetcher":
         return run_fetcher_case(tuple(case["nan_fields"]))
+    if case.get("driver") == "pool":
+        hist = [tuple(tuple(x) if isinstance(x, list) else x for x in e) for e in case["history"]]
+        return run_pool_history(hist, case["tier"])
     states = case["batteries"]
     working = set(case["working"])
     soc, cap = evaluate(states, working)
